@@ -33,6 +33,8 @@ type RelayerState struct {
 	Pubkeys     []string   `json:"pubkeys"`
 	Accounts    []int      `json:"accounts"`
 	Unknown     int        `json:"unknown"` // voter records / list entries for identities outside the keyring
+	Tip         int64      `json:"tip"`     // bitcoin module: latest voted height
+	CurKey      string     `json:"curKey"`  // bitcoin module: latest relayer key
 }
 
 var voterStatus = map[relayertypes.VoterStatus]string{
@@ -123,6 +125,12 @@ func Relayer(c *sim.Chain) (*RelayerState, error) {
 	sort.Strings(st.Pubkeys)
 	if st.Pubkeys == nil {
 		st.Pubkeys = []string{}
+	}
+	if tip, err := c.App.BitcoinKeeper.BlockTip.Peek(ctx); err == nil {
+		st.Tip = int64(tip)
+	}
+	if pk, err := c.App.BitcoinKeeper.Pubkey.Get(ctx); err == nil {
+		st.CurKey = hex.EncodeToString(relayertypes.EncodePublicKey(&pk)[:5])
 	}
 	st.Accounts = []int{}
 	for i, m := range kr.Members {
